@@ -267,10 +267,13 @@ fn exec<F: Flavour>(w: &mut World<F>, op: &TOp) -> Obs {
                 None => {
                     let node = &wr.nodes[*u];
                     let mut f = |a: F::Node, b: F::Node, e: crate::payload::EVal| body(F::key(&a), F::key(&b), e.0);
-                    match dir % 3 {
-                        0 => F::for_out(node, &mut f),
-                        1 => F::for_in(node, &mut f),
-                        _ => F::for_into(node, &mut f),
+                    // dir / 3 selects how the loop is driven: 0 a plain `for`, 1.. the iterator
+                    // adaptor styles of Flavour::for_adapted
+                    match (dir / 3, dir % 3) {
+                        (0, 0) => F::for_out(node, &mut f),
+                        (0, 1) => F::for_in(node, &mut f),
+                        (0, _) => F::for_into(node, &mut f),
+                        (style, d) => F::for_adapted(node, d, style, &mut f),
                     }
                     Obs::Unit
                 }
@@ -424,7 +427,7 @@ impl Engine for Twin {
                     } else {
                         None
                     };
-                    TOp::Loop { u: rng.below(n), dir: rng.below(3) as u8, spec, plan }
+                    TOp::Loop { u: rng.below(n), dir: (rng.below(3) + 3 * if rng.coin() { 0 } else { rng.range(1, 8) }) as u8, spec, plan }
                 }
                 97 => {
                     if rng.coin() {
